@@ -26,6 +26,7 @@ EXPLANATION = (
     "transducer on every operator-stack configuration up to a depth bound (PD: parentheses override, pop rule, output order); "
     "conjunction/disjunction wiring of all seven activation methods; Antecedent.load interpreted abstractly against the antecedent grammar (LD); "
     "Aggregated.activation_degree is the grouped lookup with the default sum (P10); format_infix's alphabet evaluated on the extracted registry (X1)"
+    "; RL-sem - Rule.load / unload interpreted on the four loaded states (both parts are loaded with the engine handed in, whatever was loaded before); loading leaves the text as it was; X1-sem - format_infix interpreted on a corpus of operand spellings x operator symbols"
 )
 ASSUMPTIONS = ["decides structure and wiring of antecedent evaluation; the numeric value of a particular antecedent is not decided"]
 FLOORS = {"PD": 4, "T1": 2, "W1": 1, "P9": 7, "P10": 2, "P3": 3, "P2": 14, "H1": 2, "LD": 4, "X1": 2}
